@@ -23,14 +23,11 @@ def _adjoint(body, active):
 
 
 def offset():
-    '''loop-offset-compound-start:  do i = 1+m, n, 2  ->  the reversed loop
-    starts at  n - MOD(n - 1 + m, 2)  instead of  n - MOD(n - (1 + m), 2).
-    n = 6, m = 2: the tl loop visits i = 3, 5; the adjoint visits 5, 3 only if
-    it starts at 5, but n - MOD(6 - 1 + 2, 2) = 5 ... take n = 7, m = 2:
-    tl visits 3, 5, 7; written start = 7 - MOD(8, 2) = 7 (ok); take n = 6,
-    m = 1: tl visits 2, 4, 6; written start = 6 - MOD(6, 2) = 6 (ok); n = 5,
-    m = 1: tl visits 2, 4; written start = 5 - MOD(5 - 1 + 1, 2) = 4 (ok) ...
-    the parity of +m and -m agree for step 2, so use step 3:'''
+    '''loop-offset-compound-start:  do i = 1+m, n, 3  ->  the reversed loop
+    starts at  n - MOD(n - 1 + m, 3)  instead of  n - MOD(n - (1 + m), 3).
+    (With step 2 the two offsets differ only in sign cases, because +m and -m
+    have the same parity; step 3 shows it directly.)  n = 7, m = 1: the tl
+    loop visits i = 2, 5; the adjoint visits 6, 3.'''
     body = "  do i = 1+m, n, 3\n    a(i) = a(i) + p*a(i-1)\n  end do\n"
     ad = _adjoint(body, ["a"])
     print(body + ad)
@@ -54,7 +51,9 @@ def sign():
 
 
 def zerotrip():
-    '''zero-trip loop with a step > 1 (see findings.d/C19.json if listed).'''
+    '''zero-trip-nonunit-step:  do i = 2, n, 2  with n = 1 has no trip; the
+    adjoint  do i = n - MOD(n - 2, 2), 2, -2  runs i = 2 once, because
+    MOD(-1, 2) = -1 (sign of the dividend) moves the start up to 2.'''
     body = "  do i = 2, n, 2\n    a(i) = a(i) + p*a(i-1)\n  end do\n"
     ad = _adjoint(body, ["a"])
     print(body + ad)
